@@ -29,8 +29,8 @@ REWRITES = {
     'R13': 'enum tuple-variant constructor used as a function value is eta-expanded: f(Variant) -> f(|x| Variant(x))',
     'R14': 'iterator-chain initialiser (`.iter().filter(..).copied().collect()`) replaced by a call to a declared function whose contract is ASSUMED (listed in evidence); only where the chain is not what the property is about',
     'R15': 'closure body lifted verbatim into a named function whose parameter list (closure parameters + captured variables, with types) is supplied by the unit; the enclosing iterator chain is not verified',
-    'R16': '`if C { continue; }` as a direct statement of a for-loop body becomes `if !(C) { <rest of the body> }` (Verus for-loops do not support continue)',
-    'R17': 'the k-th loop of a function lifted verbatim into a named function whose parameter list (the variables the loop reads, and `&mut` for collections it pushes to) the unit supplies; the code before and after the loop is not verified',
+    'R16': 'every `if C { continue; }` that is a direct statement of a for-loop body becomes `if !(C) { <rest of the body> }`, nested for several guards (Verus for-loops do not support continue)',
+    'R17': 'the k-th loop of a function lifted verbatim into a named function whose parameter list (the variables the loop reads, and `&mut` for collections it pushes to) the unit supplies; the code before and after the loop is not verified; variant: only the loop body (one iteration), with mutable locals it assigns passed in and returned',
     'R12': 'derive(Default) expanded to the field-wise impl the derive generates (inside verus!, verified, not assumed)',
 }
 
@@ -449,26 +449,33 @@ pub assume_specification [<{q} as PartialEq>::eq] (a: &{q}, b: &{q}) -> (r: bool
             edits.append((L['body'][0], L['body'][0], lsegs))
             if spec.get('iter') and L['kind'] == 'for':
                 edits.append((L['expr'][0], L['expr'][0], [Seg(spec['iter'] + ': ')]))
-        # R16: guard-continue at the top level of a for-loop body
-        for k in continue_guards:
-            if k >= len(e['loops']):
-                raise LostAnchor(f'{fn}: loop #{k} not found')
-            L = e['loops'][k]
+        # R16: guard-continue statements at the top level of a for-loop body (every for-loop of the function; Verus for-loops
+        # do not support `continue`): `if C { continue; } REST` -> `if !(C) { REST }`, nested for several guards
+        for k, L in enumerate(e['loops']):
+            if L['kind'] != 'for':
+                continue
             lb0, lb1 = L['body']
             btxt = src[lb0:lb1].decode()
-            found = None
+            found = []
             for m16 in re.finditer(r'if\s+([^{};]+?)\s*\{\s*continue\s*;?\s*\}', btxt):
                 depth = btxt[:m16.start()].count('{') - btxt[:m16.start()].count('}')
                 if depth == 1:
-                    found = m16
-                    break
+                    found.append(m16)
             if not found:
-                raise LostAnchor(f'{fn}: loop #{k} has no top-level `if C {{ continue; }}` (R16)')
-            s16 = lb0 + len(btxt[:found.start()].encode())
-            e16 = lb0 + len(btxt[:found.end()].encode())
-            edits.append((s16, e16, [Seg(f'if !({found.group(1).strip()}) {{')]))
-            edits.append((lb1 - 1, lb1 - 1, [Seg('} ')]))
-            self._rw('R16')
+                if k in continue_guards:
+                    raise LostAnchor(f'{fn}: loop #{k} has no top-level `if C {{ continue; }}` (R16)')
+                continue
+            # only sound as a pure nesting if no other `continue` targets this loop from deeper inside
+            inner_cont = len(re.findall(r'\bcontinue\b', btxt)) - len(found)
+            nested_loops = [L2 for L2 in e['loops'] if L2 is not L and lb0 <= L2['span'][0] and L2['span'][1] <= lb1]
+            if inner_cont > 0 and not nested_loops:
+                continue        # leave it: Verus will report the unsupported construct (inconclusive)
+            for m16 in found:
+                s16 = lb0 + len(btxt[:m16.start()].encode())
+                e16 = lb0 + len(btxt[:m16.end()].encode())
+                edits.append((s16, e16, [Seg(f'if !({m16.group(1).strip()}) {{')]))
+                self._rw('R16')
+            edits.append((lb1 - 1, lb1 - 1, [Seg('} ' * len(found))]))
         # R3
         for k in copied_loops:
             L = e['loops'][k]
@@ -740,8 +747,10 @@ pub assume_specification [<{q} as PartialEq>::eq] (a: &{q}, b: &{q}) -> (r: bool
         return edits
 
     def loop_fn(self, path, impl, fn, k, name, sig, requires=(), ensures=(), invariant=(), iter=None, trait=None,
-                ghost_before='', ghost_loop_start='', ghost_loop_end='', ghost_after='', tail=''):
-        """R17: the k-th loop of a krill fn, verbatim, as the body of a standalone fn `name sig`."""
+                ghost_before='', ghost_loop_start='', ghost_loop_end='', ghost_after='', tail='', body_only=False):
+        """R17: the k-th loop of a krill fn, verbatim, as the body of a standalone fn `name sig`.
+        body_only: only the loop BODY block is lifted (one iteration); mutable locals the body assigns are declared by
+        `ghost_before` (e.g. `let mut required = required0;`) and returned by `tail` -- both supplied by the unit."""
         kw = {'fn': fn}
         if impl is not None:
             kw['impl'] = impl
@@ -768,6 +777,23 @@ pub assume_specification [<{q} as PartialEq>::eq] (a: &{q}, b: &{q}) -> (r: bool
                 segs.append(Seg(',\n'))
         segs.append(Seg('/*VXCE*/{\n'))
         segs += self._ghost_segs(ghost_before, fid, clause_list)
+        if body_only:
+            bs_, bt_ = L['body']
+            segs += _apply_edits(src, bs_, bt_, self._inner_edits(src, e, bs_, bt_, fn))
+            segs.append(Seg('\n'))
+            segs += self._ghost_segs(ghost_after, fid, clause_list)
+            segs.append(Seg(tail + '\n}'))
+            segs.append(Seg(f' /*VXEND {fid}*/\n'))
+            for sg in segs:
+                if sg.fn is None:
+                    sg.fn = fid
+            cid = f'{fid}.safety'
+            self.clauses[cid] = {'kind': 'safety', 'fn': fid, 'text': 'implicit: callee preconditions, arithmetic overflow, index bounds, unwrap, panic!/unreachable! arms unreachable'}
+            clause_list.append(cid)
+            self.functions.append({'id': fid, 'path': path, 'impl': impl, 'fn': name, 'clauses': clause_list, 'loops': 0, 'trait': False})
+            self._rw('R17')
+            self.extracted.append((path, f'body of loop #{k} of fn {(impl + "::") if impl else ""}{fn} [one iteration]'))
+            return segs
         edits = self._inner_edits(src, e, ls, lt, fn)
         lsegs = [Seg('\n')]
         if invariant:
